@@ -121,4 +121,28 @@ theorem cma_counts (n : Nat) (m s : Float32) (taps : List C32) (v : View)
     List.length_take, Nat.zero_add]
   exact ⟨trivial, by simp; omega⟩
 
+/-- the three outcomes of a call, each with the facts that make its verdict truthful -/
+theorem cma_verdicts (n : Nat) (m s : Float32) (taps : List C32) (v : View) :
+    let r := cmaWork n m s taps v
+    (r.2.verdict = .waitIn 0 n ∧ (in0 v).samples.length < n ∧ r.1 = taps ∧ r.2 = noOut v (.waitIn 0 n)) ∨
+    (r.2.verdict = .waitOut 0 n ∧ n ≤ (in0 v).samples.length ∧ (out0 v).free < n ∧ r.1 = taps ∧
+      r.2 = noOut v (.waitOut 0 n)) ∨
+    (r.2.verdict = .again ∧ n ≤ (in0 v).samples.length ∧ n ≤ (out0 v).free ∧ r.2.consumed = [n]) := by
+  intro r
+  by_cases h1 : (in0 v).samples.length < n
+  · left
+    have : r = (taps, noOut v (.waitIn 0 n)) := cmaWork_wait_in n m s taps v h1
+    rw [this]; exact ⟨rfl, h1, rfl, rfl⟩
+  · by_cases h2 : (out0 v).free < n
+    · right; left
+      have : r = (taps, noOut v (.waitOut 0 n)) := cmaWork_wait_out n m s taps v h1 h2
+      rw [this]; exact ⟨rfl, by omega, h2, rfl, rfl⟩
+    · right; right
+      have hr := cmaWork_go n m s taps v h1 h2
+      refine ⟨?_, by omega, by omega, ?_⟩
+      · show (cmaWork n m s taps v).2.verdict = _
+        rw [hr]
+      · show (cmaWork n m s taps v).2.consumed = _
+        rw [hr]
+
 end RR.Dsp
